@@ -55,7 +55,7 @@ def cases(tier, seed):
         for d, n, noise in (COUPLED_QUICK if tier == 'quick' else COUPLED_THOROUGH):
             out.append(('fit', d, ('coupled', n, noise), vt, tier))
     for vt in TYPES:
-        for d, n, noise in ((4, 240, 0.05), (5, 240, 0.1), (6, 240, 0.03)) + (() if tier == 'quick' else ((6, 240, 0.05), (3, 400, 0.02), (5, 240, 0.03))):
+        for d, n, noise in ((4, 240, 0.05), (5, 240, 0.1), (6, 240, 0.03)) + (() if tier == 'quick' else ((6, 240, 0.05), (5, 240, 0.03), (7, 240, 0.05))):
             out.append(('fit', d, ('bundle', n, noise), vt, tier))
     for vt in TYPES:
         for d in (3, 4):
@@ -178,6 +178,10 @@ def flow_check(r, trees, U0, tag, case, sigp):
             F[(R, D | {L})] = Ue[1] if ok_shape else hr
             # Frank's closed-form h loses ~1e-9 absolute for |theta| >= 8 (see C07), hence the wider tolerance there
             tol_h = 1e-7 if (fam == 'frank' and abs(e.theta) >= 8) else 1e-9
+            # ... and rows with an argument within 1e-6 of 0 or 1 lie outside the square on which C07 states the accuracy of h
+            # (Gumbel theta = 1.4 at (1 - 1.2e-9, 1 - 1.5e-9): two correct float64 evaluations differ by 2e-9)
+            edge_rows = (np.minimum(a, b) < 1e-6) | (np.maximum(a, b) > 1 - 1e-6)
+            tol_h = np.where(edge_rows, 1e-6, tol_h)
             if Ue.shape != (2, len(a)) or not (h_matches(Ue[0], hl, tol_h) and h_matches(Ue[1], hr, tol_h)):
                 swapped = Ue.shape == (2, len(a)) and h_matches(Ue[0], hr, tol_h) and h_matches(Ue[1], hl, tol_h)
                 r.violation(f'{sigp}:flow:h-outputs{":swapped" if swapped else ""}',
